@@ -444,6 +444,10 @@ impl<'a> World<'a> {
         let log = &st.log[self.log_mark..];
         eff.dev_calls = log.len() as u64;
         let mut touched_fat_blocks: BTreeSet<(usize, u32)> = BTreeSet::new();
+        // the free count as it moved write by write (a cluster taken and given back inside one call is a dip the
+        // net effect does not show, but a stale FSInfo count that saturates at zero feels it)
+        let mut running: Vec<i64> = self.vols.iter().map(|v| v.free as i64).collect();
+        let mut dips: Vec<(i64, i64)> = running.iter().map(|&f| (f, f)).collect();
         for e in log {
             if !e.write || !e.applied {
                 continue;
@@ -456,7 +460,34 @@ impl<'a> World<'a> {
                 let g = &v.geom;
                 if e.block >= g.first_fat && e.block < g.first_fat + g.fat_size {
                     touched_fat_blocks.insert((vi, e.block));
+                    if let (Some(pre), Some(data)) = (&e.pre, &e.data) {
+                        let eb = g.entry_bytes() as usize;
+                        let first = (e.block - g.first_fat) as usize * (512 / eb);
+                        for k in 0..512 / eb {
+                            let c = first + k;
+                            if c < 2 || c >= (g.clusters + 2) as usize {
+                                continue;
+                            }
+                            let rd = |b: &[u8; 512]| if eb == 2 { u16::from_le_bytes([b[k * 2], b[k * 2 + 1]]) as u32 } else { u32::from_le_bytes([b[k * 4], b[k * 4 + 1], b[k * 4 + 2], b[k * 4 + 3]]) & 0x0FFF_FFFF };
+                            let (o, n) = (rd(pre), rd(data));
+                            if o == 0 && n != 0 {
+                                running[vi] -= 1;
+                            } else if o != 0 && n == 0 {
+                                running[vi] += 1;
+                            }
+                            dips[vi].0 = dips[vi].0.min(running[vi]);
+                            dips[vi].1 = dips[vi].1.max(running[vi]);
+                        }
+                    }
                 }
+            }
+        }
+        for (vi, v) in self.vols.iter_mut().enumerate() {
+            if dips[vi].0 < v.min_free_since_mount as i64 {
+                v.min_free_since_mount = dips[vi].0.max(0) as u32;
+            }
+            if dips[vi].1 > v.max_free_since_mount as i64 {
+                v.max_free_since_mount = dips[vi].1.min(u32::MAX as i64) as u32;
             }
         }
         for (vi, blk) in touched_fat_blocks {
